@@ -18,7 +18,13 @@ Tie: translator (T) + correspondence (C).
   (iv)  histories of 1-120 `write_html/write_latex/write_f12/write_pickle/dump_on_file`, deletions
         and `create_backup` in one directory: produced names and final directory compared with
         the model, content hashes of every existing file before/after each step (oracle);
-        `estimate(recycle=True)` must load the pickle written last; `validate` writes only new files.
+        `estimate(recycle=True)` must load the pickle written last; `validate` writes only new files;
+  (v)   backup histories: repeated `create_backup` (copy / rename) of one file where the backup numbers in use are arbitrary
+        (backups removed by the user, look-alike names, file re-created or missing): same oracle and model comparison as (iv);
+  (vi)  recycling with several models in one directory: saved results of a model interleaved with those of models whose
+        names contain its name (prefix, suffix, other case) and with files that are not saved results:
+        `estimate(recycle=True)` / `recycled_estimation()` must return the results the model saved last (an estimation of
+        the model itself when it saved nothing), `files_of_type` is compared with `Files.ofType`.
 """
 
 from __future__ import annotations
@@ -77,7 +83,10 @@ ASSUMPTIONS = [
 RULE = (
     'parameter cases: 1-8 set_value calls with admissible/inadmissible values of every kind then dump+read (non-trivial = at least one accepted non-default value); '
     'results cases: generated RawResults (1-5 parameters, adversarial names, singular/non-finite Hessians, bootstrap) and real estimations, pickled and reloaded, '
-    'all reports parsed; histories: 1-120 outputs of 1-3 models and a database with pre-existing decoy files, deletions, backups (non-trivial = some produced name carries a ~NN suffix)'
+    'all reports parsed; histories: 1-120 outputs of 1-3 models and a database with pre-existing decoy files, deletions, backups (non-trivial = some produced name carries a ~NN suffix '
+    'or two or more backups were made); backup histories: 2-14 backups / removals of single backups / re-creations of one file in a directory where the backup numbers in use '
+    'are arbitrary (gaps, look-alike names); recycling: 0-101 saved results of a model interleaved with saved results of 0-3 other models whose names contain the name of the '
+    'model, plus files that are not saved results (non-trivial = at least two saved results or another model present)'
 )
 
 TOML = '[Estimation]\nsave_iterations = "False"\n[Output]\ngenerate_html = "True"\ngenerate_pickle = "True"\n'
@@ -89,6 +98,7 @@ W_LATEX = 'results.get_latex: cell formatting'
 W_RECYCLE = 'BIOGEME.estimate(recycle=True): choice of the pickle file'
 W_FLAT = 'Database.generate_flat_panel_dataframe(save_on_file=True)'
 W_QUICK = 'bioResults reports without second derivatives (quick_estimate)'
+W_GLOB = 'BIOGEME.files_of_type: the model name is used as a glob pattern'
 
 
 # ============================================================================ values
@@ -1075,6 +1085,53 @@ def gen_history(rng, long=False):
     return {'kind': 'history', 'pre': pre, 'ops': ops}
 
 
+BACKUP_TARGETS = ['estimates.txt', 'm.html', 'mod.pickle', 'noext', '.hidden', 'a.b.c', 'x y.dat', 'm~00.pickle', 'data[1].csv', 'q*.txt', 'r?.log', 'β.tex',
+                  'archive.tar.gz', 'm_1.html', 'UPPER.TXT', 'd_dumped.dat', 'm_2.html', '_', 'a_.b']
+
+
+def gen_backup_history(rng):
+    """repeated backups of one file in a directory where the backup numbers already in use are arbitrary: some were removed by the
+    user, some names of that shape were put there by the user (gaps, 10 without 9, `01`), the file itself is re-created after a
+    renaming backup or is missing"""
+    target = rng.choice(BACKUP_TARGETS)
+    base, ext = os.path.splitext(target)
+    numbers = [1, 2, 3, 4, 5, 6, 9, 10, 11]
+    pre = {f'{base}_{k}{ext}' for k in rng.sample(numbers, rng.choice([0, 1, 1, 2, 2, 3, 4, 6]))}
+    if rng.random() < 0.4:
+        pre |= set(rng.sample([f'{base}_01{ext}', f'{base}_{ext}', f'{base}_1', f'{base}_x{ext}', f'{base}_1{ext}.bak', f'{base}-1{ext}', f'{base}_0{ext}',
+                               f'{base}1{ext}', f'{base}_1_1{ext}', f'{base}_ 2{ext}', f'{base.upper()}_1{ext}'], rng.randint(1, 4)))
+    pre.discard(target)
+    pre = sorted(p for p in pre if p not in ('', '.', '..'))
+    rng.shuffle(pre)
+    if rng.random() < 0.85:
+        pre.insert(rng.randint(0, len(pre)), target)
+    ops = []
+    if rng.random() < 0.12:
+        # many generations: the numbers go past 9 (two digits) while some early ones are removed on the way
+        for k in range(rng.randint(10, 24)):
+            ops.append(['backup_missing', target, False])
+            if rng.random() < 0.15:
+                ops.append(['delete_name', f'{base}_{rng.randint(1, k + 1)}{ext}'])
+        return {'kind': 'history', 'pre': pre, 'ops': ops}
+    for _ in range(rng.randint(2, 14)):
+        r = rng.random()
+        if r < 0.55:
+            rename = rng.random() < 0.4
+            ops.append(['backup_missing', target, rename])
+            if rename and rng.random() < 0.8:
+                ops.append(['create', target])
+        elif r < 0.78:
+            ops.append(['delete_name', f'{base}_{rng.choice([1, 1, 2, 2, 3, 4, 5, 10])}{ext}'])
+        elif r < 0.88:
+            ops.append(['create', rng.choice([target, target, f'{base}_{rng.randint(1, 6)}{ext}'])])
+        elif r < 0.94:
+            ops.append(['delete_name', target])
+        else:
+            # a backup of a backup
+            ops.append(['backup_missing', f'{base}_{rng.randint(1, 3)}{ext}', rng.random() < 0.5])
+    return {'kind': 'history', 'pre': pre, 'ops': ops}
+
+
 def listing():
     return {p: hashlib.sha1(Path(p).read_bytes()).hexdigest() for p in os.listdir('.') if os.path.isfile(p) and p != 'biogeme.toml'}
 
@@ -1123,6 +1180,21 @@ def run_history(case, res=None):
                 os.remove(target)
                 name = None
                 model_ops.append(['delete', target])
+            elif op[0] == 'delete_name':
+                # the user removes one particular file (e.g. the oldest backup), if it is there
+                target = op[1]
+                model_ops.append(['delete', target])
+                if target not in cur:
+                    produced.append(None)
+                    continue
+                os.remove(target)
+                name = None
+            elif op[0] == 'create':
+                # the user (or another program) creates or replaces a file: not an output of biogeme
+                target = op[1]
+                Path(target).write_text('user file ' + tok, encoding='utf-8')
+                name = None
+                model_ops.append(['create', target, tok])
             elif op[0] in ('backup', 'backup_missing'):
                 if op[0] == 'backup':
                     files = sorted(cur)
@@ -1139,6 +1211,12 @@ def run_history(case, res=None):
             removed = sorted(set(cur) - set(new))
             changed = sorted(p for p in cur if p in new and cur[p] != new[p])
             # ---- oracle, from the property: nothing existing is modified or replaced; each new output has a new name
+            if op[0] == 'create':
+                if [p for p in changed + added if p != target] or removed:
+                    complaints.append({'step': i, 'op': op, 'what': 'harness: create went wrong'})
+                tokens[target] = tok
+                cur = new
+                continue
             if changed:
                 complaints.append({'step': i, 'op': op, 'what': f'existing file(s) modified: {changed}'})
             if expect_new:
@@ -1148,7 +1226,7 @@ def run_history(case, res=None):
                     complaints.append({'step': i, 'op': op, 'what': f'an output must add exactly one new file: added {added}, removed {removed}, reported {name!r}'})
                 else:
                     tokens[name] = tok
-            elif op[0] == 'delete':
+            elif op[0] in ('delete', 'delete_name'):
                 tokens.pop(target, None)
                 if added or removed != [target]:
                     complaints.append({'step': i, 'op': op, 'what': 'harness: delete went wrong'})
@@ -1177,7 +1255,12 @@ def run_history(case, res=None):
 def check_history(ctx, res, case):
     model_ops, produced, final, complaints = run_history(case)
     suffixed = any(isinstance(p, str) and re.search(r'~\d\d+\.', p) for p in produced)
-    res.count(case, nontrivial=suffixed)
+    backups = [p for p, op in zip(produced, case['ops']) if isinstance(p, str) and op[0] in ('backup', 'backup_missing')]
+    res.count(case, nontrivial=suffixed or len(backups) >= 2)
+    if len(backups) >= 2:
+        res.tally('history:two or more backups made')
+    if any(not re.search(r'_1(\.[^.]*)?$', b) for b in backups):
+        res.tally('history:backup number other than 1')
     res.tally('history:len<=10' if len(case['ops']) <= 10 else 'history:len<=40' if len(case['ops']) <= 40 else 'history:len>40')
     for op in case['ops']:
         res.tally('op:' + op[0])
@@ -1201,30 +1284,99 @@ def check_history(ctx, res, case):
 # ---- recycle
 
 
+OTHER_MODEL_SHAPES = ['{glob}', '{m}_income', '{m}2', '{m}_validation', '{m} (2)', '{m}-old', '{m}.v2', '{m}x', '{m}_1', 'x{m}', '{M}', '{m-}', '{m}{m}', '{m}_']
+JUNK_SHAPES = ['{m}_validation.pickle', '{m}.pickle.bak', '{m}.pickle~', '{m}x.pickle', 'x{m}.pickle', '{m}~00.pickle.old', '{m}.pickles', 'other.pickle', 'zzz.pickle',
+               '{m}_pickle', '{m}pickle', '{m}.html.pickle.txt']
+
+
+def glob_special(m):
+    """the model name holds a character that glob reads as a pattern (and that biogeme's is_valid_filename accepts)"""
+    return any(c in m for c in '[]')
+
+
+def glob_special_case(case):
+    """MATCHER of the glob finding"""
+    return (case or {}).get('kind') == 'recycle' and glob_special((case or {}).get('model', ''))
+
+
+def shape_name(shape, m):
+    # '{glob}': a name that the name of the model, read as a glob pattern, matches ('m[1]' -> 'm1'); the name itself otherwise
+    shape = shape.replace('{glob}', re.sub(r'\[(.)[^\]]*\]', r'\1', m))
+    return shape.replace('{m-}', m[:-1] or 'q').replace('{M}', m.upper() if m.upper() != m else m + 'Q').replace('{m}', m)
+
+
+def tilde_related(a, b):
+    """the output names of models a and b overlap by design (a = b + '~...' or the reverse, or a = b)"""
+    return a == b or a.startswith(b + '~') or b.startswith(a + '~')
+
+
+def gen_recycle(rng, n=None):
+    """saved results of one model, possibly interleaved with those of other models in the same directory whose names contain the
+    name of this model (as a prefix, a suffix, in another case), and with files that are not saved results"""
+    m = rng.choice(['m', 'mod', 'a.b', 'x y', 'logit', 'β', 'Model-2', 'm_1'])
+    if rng.random() < 0.08:
+        m = rng.choice(['m[1]', 'logit[v2]', 'a[bc]'])
+    if n is None:
+        n = rng.choice([0, 1, 1, 2, 3, 5, 11])
+    others = [o for o in (shape_name(sh, m) for sh in rng.sample(OTHER_MODEL_SHAPES, rng.choice([0, 1, 1, 2, 3]))) if not tilde_related(o, m)]
+    order = [0] * n
+    for k in range(len(others)):
+        order += [k + 1] * rng.choice([1, 1, 2, 3])
+    if n > 20:
+        tail = order[n:]
+        rng.shuffle(tail)
+        order = order[:n] + tail if rng.random() < 0.5 else tail + order[:n]
+    else:
+        rng.shuffle(order)
+    junk = sorted({shape_name(sh, m) for sh in rng.sample(JUNK_SHAPES, rng.choice([0, 0, 1, 2, 3]))})
+    return {'kind': 'recycle', 'model': m, 'n': n, 'other_models': others, 'order': order, 'other_files': junk, 'html': rng.random() < 0.5,
+            'via': rng.choice(['estimate', 'estimate', 'recycled_estimation'])}
+
+
 def run_recycle(case):
-    """n successive estimations' pickles of one model, then estimate(recycle=True); returns marker loaded and markers written"""
+    """successive saved results of one model (and of other models in the same directory), then estimate(recycle=True); returns what
+    was written for the model, what was loaded, the directory, the lists given by files_of_type"""
     with core.scratch(TOML):
         B = tiny_biogeme(case['model'])
         B.generate_html = False
         B.generate_pickle = False
         written = []
-        for i in range(case['n']):
-            spec = {'kind': 'results', 'model': case['model'], 'names': ['b_x', 'asc'], 'values': [float(i), 0.5], 'bounds': [[None, None]] * 2,
-                    'H': [[-2.0, 0.0], [0.0, -1.0]], 'hkind': 'regular', 'bhhh': [[1.0, 0.0], [0.0, 1.0]], 'g': [0.0, 0.0], 'bootstrap': None, 'logLike': -10.0,
-                    'initLogLike': -12.0, 'nullLogLike': None, 'sampleSize': 9, 'numberOfObservations': 9, 'userNotes': f'run {i}', 'convergence': True, 'threshold': None}
+        others = case.get('other_models', [])
+        order = case.get('order')
+        if order is None:
+            order = [0] * case['n']
+        counts = {}
+        for who in order:
+            i = counts.get(who, 0)
+            counts[who] = i + 1
+            own = who == 0
+            spec = {'kind': 'results', 'model': case['model'] if own else others[who - 1], 'names': ['b_x', 'asc'] if own else ['b_other', 'zz', 'b_x'],
+                    'values': [float(i), 0.5] if own else [1000.0 + i, -7.0, 2000.0 + who], 'bounds': [[None, None]] * (2 if own else 3),
+                    'H': [[-2.0, 0.0], [0.0, -1.0]] if own else [[-2.0, 0.0, 0.0], [0.0, -1.0, 0.0], [0.0, 0.0, -4.0]], 'hkind': 'regular',
+                    'bhhh': [[1.0, 0.0], [0.0, 1.0]] if own else [[1.0, 0.0, 0.0], [0.0, 1.0, 0.0], [0.0, 0.0, 1.0]], 'g': [0.0] * (2 if own else 3), 'bootstrap': None,
+                    'logLike': -10.0, 'initLogLike': -12.0, 'nullLogLike': None, 'sampleSize': 9, 'numberOfObservations': 9,
+                    'userNotes': f'run {i}' if own else f'other model {others[who - 1]} run {i}', 'convergence': True, 'threshold': None}
             r = make_results(spec)
-            written.append([r.write_pickle(), f'run {i}', float(i)])
+            name = r.write_pickle()
+            if case.get('html'):
+                r.write_html()
+            if own:
+                written.append([name, f'run {i}', float(i)])
         for extra in case.get('other_files', []):
             Path(extra).write_bytes(b'not a pickle of this model')
         before = listing()
+        listed = {}
+        for ext in ('pickle', 'html'):
+            listed[ext] = attempt(lambda: sorted(B.files_of_type(ext)))
+            listed[ext + ':all'] = attempt(lambda: sorted(B.files_of_type(ext, all_files=True)))
         try:
-            r = B.estimate(recycle=True)
-            got = [r.data.userNotes, float(r.data.betaValues[0]), r.data.pickleFileName]
+            r = B.recycled_estimation() if case.get('via') == 'recycled_estimation' else B.estimate(recycle=True)
+            got = [r.data.userNotes, float(r.data.betaValues[0]), r.data.pickleFileName, list(r.data.betaNames)]
         except Exception as e:  # noqa: BLE001
-            got = [f'EXC:{type(e).__name__}: {e}', None, None]
+            got = [f'EXC:{type(e).__name__}: {e}', None, None, None]
         after = listing()
         names = sorted(before)
-    return written, got, names, before == after
+    return written, got, names, before == after, listed
 
 
 def more_than_101_pickles(case):
@@ -1232,27 +1384,58 @@ def more_than_101_pickles(case):
 
 
 def check_recycle(ctx, res, case):
-    written, got, names, untouched = run_recycle(case)
-    res.count(case, nontrivial=case['n'] >= 2)
+    written, got, names, untouched, listed = run_recycle(case)
+    special = glob_special(case['model'])
+    w_rec = W_GLOB if special else W_RECYCLE
+    w_fot = W_GLOB if special else 'BIOGEME.files_of_type'
+    w_div = W_GLOB if special else ''
+    if special:
+        res.tally('recycle:model name with glob characters')
+    res.count(case, nontrivial=case['n'] >= 2 or bool(case.get('other_models')))
     res.tally('recycle:n>101' if case['n'] > 101 else 'recycle:n<=101')
-    last = written[-1]
+    if case.get('other_models'):
+        res.tally('recycle:other models saved in the same directory')
+    if case['n'] == 0:
+        res.tally('recycle:nothing saved for the model')
     if not untouched:
-        res.violate('estimate(recycle=True) changed the directory although a pickle file existed', case, 'changed', 'unchanged', where=W_RECYCLE)
-    if got[0] != last[1] or got[1] != last[2]:
-        res.violate(f'estimate(recycle=True) after {case["n"]} saved results loads {got[2]!r} ({got[0]}), not the results saved last ({last[0]!r})',
-                    case, got, last, where=W_RECYCLE)
-    req = {'op': 'recycle', 'names': names, 'model': case['model'], 'ext': 'pickle'}
+        res.violate('estimate(recycle=True) changed the directory', case, 'changed', 'unchanged', where=w_rec)
+    if written:
+        # the property: saved results loaded again are the same results — those this model saved last
+        last = written[-1]
+        if got[0] != last[1] or got[1] != last[2]:
+            res.violate(f'estimate(recycle=True) after {case["n"]} saved results of model {case["model"]!r} loads {got[2]!r} ({got[0]}), not the results it saved last ({last[0]!r})',
+                        case, got, last, where=w_rec)
+    else:
+        # nothing was saved for this model: whatever is returned, it is not the saved results of another model nor a file that holds no results
+        last = [None, None, None]
+        if got[3] != ['asc', 'b_x'] and got[3] != ['b_x', 'asc']:
+            res.violate(f'estimate(recycle=True) of model {case["model"]!r}, for which nothing was saved, returns {got[2]!r} ({got[0]})', case, got,
+                        'an estimation of the model itself', where=w_rec)
+    own_names = [w[0] for w in written]
+    for ext in ('pickle', 'html'):
+        exp_all = sorted(p for p in names if p.endswith('.' + ext) and not p.startswith('.'))
+        if listed[ext + ':all'] != exp_all:
+            res.diverge(f'files_of_type({ext!r}, all_files=True) vs the files with that extension', case, exp_all, listed[ext + ':all'])
+    # every file the model saved is listed (oracle: otherwise saved results can never be loaded again through recycling)
+    if isinstance(listed['pickle'], list) and not set(own_names) <= set(listed['pickle']):
+        res.violate(f'files_of_type("pickle") of model {case["model"]!r} does not list the results it saved: {sorted(set(own_names) - set(listed["pickle"]))}', case,
+                    listed['pickle'], own_names, where=w_fot)
+    reqs = [{'op': 'recycle', 'names': names, 'model': case['model'], 'ext': ext} for ext in ('pickle', 'html')]
 
-    def cb(ans):
+    def cb(answers):
+        ans, ans_html = answers
+        for ext, a in (('pickle', ans), ('html', ans_html)):
+            if sorted(a.get('of_type', [])) != listed[ext]:
+                res.diverge(f'files_of_type({ext!r}) vs Files.ofType', case, sorted(a.get('of_type', [])), listed[ext], where=w_div)
         if ans.get('latest') != last[0]:
-            res.diverge('Files.recycleChoice (repaired choice) vs the file written last', case, ans.get('latest'), last[0], where=W_RECYCLE if case['n'] > 101 else '')
-        if not case.get('other_files') and ans.get('lenlex') != ans.get('latest'):
+            res.diverge('Files.recycleChoice (repaired choice) vs the file written last', case, ans.get('latest'), last[0], where=W_RECYCLE if case['n'] > 101 else w_div)
+        if ans.get('lenlex') != ans.get('latest'):
             res.diverge('order (length, name) of the proposed repair vs the largest index of the sequence', case, ans.get('lenlex'), ans.get('latest'))
         # the real code follows either the model of the code as it is (string order) or the repaired choice
-        if got[2] not in (ans.get('lex'), ans.get('latest')):
-            res.diverge('file loaded by estimate(recycle=True) vs Files.recycleChoiceLex / Files.recycleChoice', case, [ans.get('lex'), ans.get('latest')], got[2])
+        if got[2] not in (ans.get('lex'), ans.get('latest')) and written:
+            res.diverge('file loaded by estimate(recycle=True) vs Files.recycleChoiceLex / Files.recycleChoice', case, [ans.get('lex'), ans.get('latest')], got[2], where=w_div)
 
-    ctx.batch.add(req, cb)
+    ctx.batch.add_many(reqs, cb)
 
 
 # ---- validate, flat panel
@@ -1372,6 +1555,16 @@ CORPUS = [
     # names: F12 label collision, '-' in a name, html characters
     {'kind': 'estimation', 'model': 'mod', 'names': ['beta_time_car', 'asc-2', 'B<3>'], 'null': True, 'bootstrap': True},
     {'kind': 'history', 'pre': ['m.html', 'm~00.html', 'm~02.html'], 'ops': [['write', 'html', 'm'], ['write', 'html', 'm'], ['delete', 0], ['write', 'html', 'm'], ['backup', 1, True], ['backup', 0, False]]},
+    # backup numbers in use are not 1..n: the oldest backup was removed / only a later number is there / the file is re-created after a renaming backup
+    {'kind': 'history', 'pre': ['e.txt'], 'ops': [['backup_missing', 'e.txt', False], ['backup_missing', 'e.txt', False], ['backup_missing', 'e.txt', False],
+                                                   ['delete_name', 'e_1.txt'], ['backup_missing', 'e.txt', False], ['backup_missing', 'e.txt', True], ['create', 'e.txt'],
+                                                   ['backup_missing', 'e.txt', True]]},
+    {'kind': 'history', 'pre': ['noext_2', 'noext', 'noext_10'], 'ops': [['backup_missing', 'noext', False], ['backup_missing', 'noext', False], ['backup_missing', 'noext_2', True]]},
+    # two models in one directory, the name of one starting with / ending with the name of the other; a validation file; nothing saved for the model
+    {'kind': 'recycle', 'model': 'logit', 'n': 2, 'other_models': ['logit_income', 'xlogit'], 'order': [0, 1, 0, 2, 1], 'other_files': ['logit_validation.pickle'], 'html': True, 'via': 'estimate'},
+    {'kind': 'recycle', 'model': 'm', 'n': 0, 'other_models': ['m2'], 'order': [1], 'other_files': [], 'html': False, 'via': 'recycled_estimation'},
+    # known finding FC14-5: a model name that glob reads as a pattern
+    {'kind': 'recycle', 'model': 'm[1]', 'n': 2, 'other_models': ['m1'], 'order': [0, 1, 0], 'other_files': [], 'html': False, 'via': 'estimate'},
 ]
 
 
@@ -1419,7 +1612,7 @@ def _run_case(ctx, res, case, table):
         raise ValueError(k)
 
 
-MATCHERS = {'latex_suffix': latex_suffix_case, 'more_than_101_pickles': more_than_101_pickles}
+MATCHERS = {'latex_suffix': latex_suffix_case, 'more_than_101_pickles': more_than_101_pickles, 'glob_special_model_name': glob_special_case}
 
 
 def _guard_batch(ctx, res):
@@ -1473,10 +1666,13 @@ def check(ctx) -> Result:
         run_case(ctx, res, gen_history(rng), table)
     for i in range(ctx.n(4, 40)):
         run_case(ctx, res, gen_history(rng, long=True), table)
+    for i in range(ctx.n(60, 700)):
+        run_case(ctx, res, gen_backup_history(rng), table)
     for i in range(ctx.n(5, 30)):
         n = rng.choice([1, 2, 3, 11, 50, 100, 101]) if i else 101
-        run_case(ctx, res, {'kind': 'recycle', 'model': rng.choice(['m', 'mod', 'a.b', 'x y']), 'n': n,
-                            'other_files': rng.sample(['other.pickle', 'm_validation.pickle', 'zzz.pickle', 'm.pickle.bak'], rng.randint(0, 2))}, table)
+        run_case(ctx, res, gen_recycle(rng, n), table)
+    for i in range(ctx.n(14, 150)):
+        run_case(ctx, res, gen_recycle(rng), table)
     for i in range(ctx.n(2, 8)):
         m = rng.choice(['vm', 'v m'])
         run_case(ctx, res, {'kind': 'validate', 'model': m, 'slices': rng.randint(2, 3),
@@ -1492,9 +1688,9 @@ def search(ctx, res, broken):
     rng = core.rng_for('C14-search', ctx.seed)
     table = live_table()
     gens = [lambda: gen_param_case(rng, *table), lambda: gen_file_case(rng, *table), lambda: gen_results_spec(rng, 's'),
-            lambda: gen_history(rng), lambda: {'kind': 'recycle', 'model': 'm', 'n': rng.choice([1, 2, 12, 101])},
-            lambda: gen_history(rng, long=True)]
-    weights = [40, 20, 25, 25, 3, 2]
+            lambda: gen_history(rng), lambda: gen_recycle(rng, rng.choice([1, 2, 12, 101])),
+            lambda: gen_history(rng, long=True), lambda: gen_backup_history(rng), lambda: gen_recycle(rng)]
+    weights = [40, 20, 25, 25, 3, 2, 20, 10]
     for i in range(500):
         g = rng.choices(gens, weights)[0]
         r2 = Result()
